@@ -23,12 +23,14 @@ CHECKS = {
    technique="explicit-state BFS over real objects (history replay) against a set reference model",
    design_ref="4/C13"),
  "C16": dict(level="model_checking", engine="E2 bfs + E1 sched",
-   text="Explicit-state breadth-first search over every Put/Get/Delete history on the real SIEVE and non-expiring caches "
-        "(4 keys, capacities -1..4) until the reachable state space closes, comparing each step with a reference map and "
-        "checking bound, size statistic, queue/store agreement and hand validity in every state.",
-   note="Trusted: canonical-state abstraction (values renamed by rank; hit/miss counters dropped), the overlay state accessor "
-        "added to package cache at build time.",
-   technique="explicit-state BFS over real objects (history replay) with reference-map oracle",
+   text="(1) Explicit-state BFS over every Put/Get/Delete history on the real SIEVE and non-expiring caches (4 keys, capacities -1..4) until the reachable "
+        "state space closes, with a reference map and bound/size/queue/hand invariants in every state. (2) Every interleaving (unbounded for the quick scenarios: "
+        "2 threads x 2 ops and 3 threads x 1 op over 2 colliding keys, 5 pre-populations, capacities 1..3) of the real code under a controlled scheduler whose "
+        "scheduling points are the cache's own sync/atomic operations; each recorded history plus the final store must be linearizable up to eviction, "
+        "with deadlock/panic detection. (3) A free-running -race pass over the same bodies (sampling, reported separately).",
+   note="Trusted: canonical-state abstraction (values renamed by rank; hit/miss counters dropped); shim fidelity to sync.RWMutex/atomic semantics; "
+        "sequential consistency (weak-memory effects are left to the -race pass). Overlay instrumentation is generated from /repo at check time.",
+   technique="explicit-state BFS + stateless schedule enumeration (controlled scheduler) with brute-force linearizability oracle",
    design_ref="4/C16"),
 }
 
